@@ -193,24 +193,28 @@ def oracle(cases, order, impl, skeleton):
         val = [None, None]
         rec = [{}, {}]      # per store: name -> value recorded at the backup instant
         dgs = [{}, {}]      # per store: name -> digest
+        rrec = [{}, {}]     # the same for the directory of remote checkpoints
+        rdgs = [{}, {}]
         pend = [None, None]
         latest = [0, 0]
         last_restore = [None, None]
         for cid, c, out in lines:
             p = out.split(" ")
-            if len(p) != 5:
+            if len(p) != 7:
                 fails.append(dict(name="trace-" + cid, base=tid, what="trace step failed: " + out[:200]))
                 break
-            res, v0, v1, d0, d1 = p
+            res, v0, v1, d0, d1, q0, q1 = p
             newv = [v0, v1]
             newd = []
-            for d in (d0, d1):
+            for d in (d0, d1, q0, q1):
                 if d == "~":
                     newd.append(None)
                 elif d == "-":
                     newd.append({})
                 else:
                     newd.append({unh(x.split("=")[0]).decode("latin1"): x.split("=")[1] for x in d.split(",")})
+            newr = newd[2:]
+            newd = newd[:2]
             if c[0] == "TB":
                 for s in (0, 1):
                     k = int(c[2 + s])
@@ -224,7 +228,7 @@ def oracle(cases, order, impl, skeleton):
             if newv[o] != val[o]:
                 bad("an operation on one store changed the content of the other")
             name = None
-            if op in ("B", "R", "Y", "O", "F"):
+            if op in ("B", "R", "Y", "O", "F", "V", "M"):
                 name = "%016x-%016x" % (int(c[3], 16), int(c[4], 16))
             if op == "W":
                 pass
@@ -287,6 +291,29 @@ def oracle(cases, order, impl, skeleton):
                     dgs[o].pop(name, None)
                 else:
                     bad("copying a checkpoint failed: " + res)
+            elif op == "V":
+                if res == "ok":
+                    if name in rec[s]:
+                        rrec[o][name] = rec[s][name]
+                    rdgs[o].pop(name, None)
+                elif res == "nosrc":
+                    rrec[o].pop(name, None)
+                    rdgs[o].pop(name, None)
+                else:
+                    bad("copying a checkpoint to the remote directory failed: " + res)
+            elif op == "M":
+                if res == "ok":
+                    stats["restores_remote"] = stats.get("restores_remote", 0) + 1
+                    if name not in rrec[s]:
+                        bad("RestoreFromRemoteBackup succeeded for a checkpoint that was never transferred")
+                    elif newv[s] != rrec[s][name]:
+                        bad("content after RestoreFromRemoteBackup(%s) differs from the content at the backup instant" % name)
+                    for e in check_purge(keep[s], latest[s], sorted(dgs[s]), sorted(newd[s] or dgs[s]), "purge after restore"):
+                        bad(e)
+                elif name in rrec[s] and name in rdgs[s]:
+                    bad("RestoreFromRemoteBackup failed although the checkpoint was transferred: " + res)
+                elif newv[s] != val[s]:
+                    bad("a failed RestoreFromRemoteBackup changed the content")
             elif op == "F":
                 if res == "ok":
                     stats["fetches"] = stats.get("fetches", 0) + 1
@@ -307,7 +334,7 @@ def oracle(cases, order, impl, skeleton):
             elif op == "Z":
                 if not has_pf and newv[s] != val[s]:
                     bad("close + reopen changed the content of the store")
-            if op in ("R", "Y", "O", "S", "X", "F") and not (op == "R" and res == "ok") and newv[s] != val[s]:
+            if op in ("R", "Y", "O", "S", "X", "F", "V") and not (op == "R" and res == "ok") and newv[s] != val[s]:
                 bad("operation %s changed the content of the store" % op)
             if op != "R":
                 last_restore[s] = None if op in ("W", "B", "Z") else last_restore[s]
@@ -324,6 +351,19 @@ def oracle(cases, order, impl, skeleton):
                     if nm not in newd[x] and (pend[x] is None or pend[x][0] != nm):
                         rec[x].pop(nm)      # purged
                 dgs[x] = dict(newd[x])
+            for x in (0, 1):
+                for nm, dg in newr[x].items():
+                    if nm in rdgs[x] and rdgs[x][nm] != dg:
+                        bad("remote checkpoint %s of store %d changed on disk (digest %s -> %s)" % (nm, x, rdgs[x][nm], dg))
+                    if nm not in rrec[x]:
+                        bad("remote checkpoint directory %s appeared from nowhere" % nm)
+                gone = [nm for nm in rdgs[x] if nm not in newr[x]]
+                if gone:
+                    for e in check_purge(3, 2 ** 64 - 2, sorted(rdgs[x]), sorted(nm for nm in newr[x] if nm in rdgs[x]), "purge of the remote directory"):
+                        bad(e)
+                    for nm in gone:
+                        rrec[x].pop(nm, None)
+                rdgs[x] = dict(newr[x])
             val = newv
     return fails, hist, nontrivial, stats
 
@@ -435,7 +475,7 @@ def run(ctx):
         raise SystemExit(2)
 
     if quick:
-        args = "-seed %d -ndir 500 -nplan 200 -ntrace 3 -tracelen 45 -nfetch 0 -engines pebble,rocksdb,mem -k1 none" % ctx.seed
+        args = "-seed %d -ndir 500 -nplan 200 -ntrace 2 -tracelen 50 -nfetch 0 -engines pebble,rocksdb,mem -k1 none" % ctx.seed
     else:
         args = "-seed %d -ndir 15000 -nplan 3000 -ntrace 30 -tracelen 80 -nfetch 6 -exh -engines pebble,rocksdb,mem -k1 pebble,rocksdb,mem -k1mb 48" % ctx.seed
     runs = []
